@@ -440,9 +440,13 @@ def child(t):
 
 # ------------------------------------------------------------------------------- parse
 
+_ROOT = [None]
+
+
 def parse(t, data, start=0, log=None, **kw):
     s = RS(data, 0, log)
     s.pos = start
+    _ROOT[0] = s
     ctx = top_ctx(kw, "parse")
     v = P(t, s, ctx, "(parsing)")
     return v, s.tell()
@@ -838,6 +842,10 @@ def P(t, s, ctx, path):
         return v
     if k == "Pointer":
         off = ev(t[1], ctx)
+        if len(t) > 3 and t[3] == "root":
+            # Pointer(..., stream=this._root._io): target, and the position saved and restored, are those of the outermost stream;
+            # the stream of the enclosing region is not touched
+            s = _ROOT[0]
         fb = s.pos
         s.seek(off, 2 if off < 0 else 0, path)
         v = P(t[2], s, ctx, path)
@@ -1392,6 +1400,8 @@ def B(t, v, w, ctx, path):
         w.write(d)
         return r if n is not None else v
     if k == "Pointer":
+        if len(t) > 3:
+            raise ValueError("ref.build: Pointer into another stream is modelled for parsing only")
         off = ev(t[1], ctx)
         fb = w.pos
         w.seek(off, 2 if off < 0 else 0, path)
